@@ -18,4 +18,12 @@ func TestDbgReplay(t *testing.T) {
 	tr := runInBubble(t, rf.Case)
 	fmt.Println(tr.PhaseStart, tr.Notes, tr.Aborted)
 	fmt.Println(tr.Excerpt(400))
+	for _, sn := range tr.Snapshots {
+		fmt.Printf("  snapshot %s@%d lib=%d client=%v server=%v pending=%v parked=%d inflight=%d\n", sn.Phase, sn.Step, sn.LibGoroutines, sn.ClientTables, sn.ServerTables, sn.PendingOps, sn.Parked, sn.InFlight)
+	}
+	for _, m := range []Monitor{monC14} {
+		for _, v := range m(rf.Case, tr) {
+			fmt.Println("  MON", v.Prop, v.Class, v.Details)
+		}
+	}
 }
